@@ -21,14 +21,16 @@ macro_rules! route_table {
         (
             NestedRoute::new(StaticSegment(""), ()),
             NestedRoute::new(StaticSegment("x"), ()),
-            NestedRoute::new(seg("about"), ()),
             NestedRoute::new((seg("about"), ParamSegment("id")), ()),
+            NestedRoute::new(seg("about"), ()),
             NestedRoute::new((seg("users"), OptionalParamSegment("tab"), seg("about")), ()),
             NestedRoute::new((seg("files"), WildcardSegment("rest")), ()),
             NestedRoute::new((ParamSegment("id"), seg("users")), ()),
             NestedRoute::new((StaticSegment("apple"), seg("lang")), ()),
             NestedRoute::new((StaticSegment("apple"), OptionalParamSegment("a"), OptionalParamSegment("b"), seg("about")), ()),
             NestedRoute::new((ParamSegment("id"), OptionalParamSegment("tab"), seg("lang")), ()),
+            NestedRoute::new((StaticSegment("pear"), OptionalParamSegment("a"), StaticSegment("mid"), OptionalParamSegment("b"), seg("about")), ()),
+            NestedRoute::new((seg("users"), ParamSegment("id"), seg("about")), ()),
         )
     }};
 }
